@@ -864,6 +864,10 @@ def r_helper_preconditions(r, prog):
 def r_lexer_preconditions(r, prog):
     guards.evaluate(r, prog, rule_scopes.guards_slice_lexer, 'guards_slice_lexer.json', 100)
 
+
+def r_parser_entry(r, prog):
+    guards.evaluate(r, prog, rule_scopes.guards_parser_entry, 'guards_parser_entry.json', 10)
+
 def run(ctx):
     prog = ctx.prog
     flow = _flow(ctx)
@@ -879,3 +883,4 @@ def run(ctx):
     ctx.run_rule('C02.9', 'T10', 'parse results are attached to the file they came from, on every path', perfile.r_results_attached_to_own_file, prog)
     ctx.run_rule('C02.10', 'T13', 'conditions under which grammar helpers report, return and mutate (precondition ledger)', r_helper_preconditions, prog)
     ctx.run_rule('C02.11', 'T13', 'conditions under which the Slice lexer consumes, returns and switches modes (precondition ledger)', r_lexer_preconditions, prog)
+    ctx.run_rule('C02.12', 'T13', 'conditions under which a parsed file is handed back or dropped (precondition ledger of the parser entry points)', r_parser_entry, prog)
